@@ -460,11 +460,7 @@ fn trap_classify() {
     // environment contract: a breakpoint trap only comes from a byte this debugger patched
     kani::assume(a1 == rip - 1 || a2 == rip - 1);
     let b1 = Breakpoint::new(PathBuf::new(), RelocatedAddress::from(a1), Pid::from_raw(P7), None);
-    let b2 = if kani::any() {
-        Breakpoint::new(PathBuf::new(), RelocatedAddress::from(a2), Pid::from_raw(P7), None)
-    } else {
-        Breakpoint::new_entry_point(PathBuf::new(), RelocatedAddress::from(a2), Pid::from_raw(P7))
-    };
+    let b2 = Breakpoint::new_entry_point(PathBuf::new(), RelocatedAddress::from(a2), Pid::from_raw(P7));
     let bps = [&b1, &b2];
     let wps = WatchpointRegistry::default();
     let tcx = TraceContext::new(&bps, &wps);
@@ -493,7 +489,7 @@ fn trap_classify() {
 //@ obligation: H-C01-b
 //@ tier: quick
 //@ encodes: Tracer::apply_new_status (SIGTRAP / TRAP_BRKPT | SI_KERNEL arm), Tracee::{pc, set_pc}, RegisterMap::{current, value, update, persist}, From<RegisterMap> for user_regs_struct
-//@ symbolic: rip (u64 >= 1), rsp, si_code in {TRAP_BRKPT, SI_KERNEL}, addresses of two active breakpoints (user / entry point), which of them was hit
+//@ symbolic: rip (u64 >= 1), rsp, si_code in {TRAP_BRKPT, SI_KERNEL}, addresses of two active breakpoints (one user-defined, one entry-point), which of them was hit
 //@ bounds: one trap event, 2 threads, 2 breakpoints, no temporary breakpoints; per-loop bounds (default 3: two threads, two queue entries; log scans 7; signal lists 8)
 //@ oracle: Breakpoint(pid, rip-1) is reported for the trapping thread; the register file afterwards has rip-1 and is otherwise unchanged; the thread is marked stopped; a group stop is requested; nothing is queued for injection
 //@ assumes: ptrace contract: a breakpoint trap comes only from a byte this debugger patched (some active breakpoint has addr = rip-1)
